@@ -49,7 +49,8 @@ void BfgsMultiDimensions::doInit(const ParameterList& params)
 
   for (size_t i = 0; i < nbParams; i++)
   {
-    auto cp = params[i].getConstraint();
+    // The bounds of the parameters as processed by the constraint policy (none if constraints are ignored):
+    auto cp = getParameters()[i].getConstraint();
     if (!cp)
     {
       Up_[i] = NumConstants::VERY_BIG();
